@@ -178,3 +178,96 @@ Theorem sync_client_repeated_slashes_refuted :
                p <> u_path witness_slashes ++ ipni_path ++ [47;104;101;97;100]).
 Proof. exact sync_client_repeated_slashes_refuted_proved. Qed.
 Print Assumptions sync_client_repeated_slashes_refuted.
+
+(* ---- the string-level helpers (mautil.go L52-L84) ---- *)
+
+(* MultiaddrStringToNetAddr: whenever it yields an address, maurl.ToURL of the same multiaddr
+   names the same endpoint: the same host[:port] string, bracketed when it is a bare IPv6 *)
+Theorem netaddr_agrees_with_to_url :
+  forall (m : maddr) (h : bytes), netaddr_of m = Ok h ->
+    exists o, to_url m = Ok o /\ (o_host o = h \/ o_host o = cLBR :: h ++ [cRBR]).
+Proof. exact netaddr_agrees_with_to_url_proved. Qed.
+Print Assumptions netaddr_agrees_with_to_url.
+
+(* StringsToMultiaddrs: the strings of a list of multiaddrs give the list back without error;
+   in general an error is reported iff some string does not parse, and the result holds
+   exactly the addresses of the strings that do *)
+Theorem strings_to_maddrs_spec :
+  (forall ms : list N, strings_to_maddrs (map Some ms) = (ms, false)) /\
+  (forall l, snd (strings_to_maddrs l) = true <-> In None l) /\
+  (forall l i, In i (fst (strings_to_maddrs l)) <-> In (Some i) l).
+Proof. exact strings_to_maddrs_spec_proved. Qed.
+Print Assumptions strings_to_maddrs_spec.
+
+(* ParsePeers fails exactly when some string is not a multiaddr or has no /p2p component *)
+Theorem parse_peers_err_iff :
+  forall l, (exists c, parse_peers l = Err c) <-> existsb bad_peer_item l = true.
+Proof. exact parse_peers_err_iff_proved. Qed.
+Print Assumptions parse_peers_err_iff.
+
+(* ---- ties to the Gallina regenerated from the Go source (proofs/GenTie_C20.v) ---- *)
+From Coq Require Import ZArith NArith List Bool Lia String.
+From Lib Require Import Bytes Escape.
+From Model Require Import C20_Maurl C20_Mautil.
+From Proofs Require Import GenTie_Lib.
+From Gen Require Import Gen_Consts Gen_Funcs_prelude Gen_Funcs_maurl Gen_Funcs_mautil.
+Import ListNotations.
+Local Open Scope Z_scope.
+From Proofs Require Import GenTie_C20.
+
+Theorem gen_tie_ToURL_scheme : forall m : maddr,
+  maurl_ToURL_scheme (existsb is_http m) (existsb is_https m) (existsb is_tls m) (existsb is_ws m) (existsb is_wss m)
+  = FFall (scheme_bytes (scheme_of m)).
+Proof. exact GenTie_C20.tie_ToURL_scheme. Qed.
+Print Assumptions gen_tie_ToURL_scheme.
+
+Theorem gen_tie_ToURL_path : forall (unesc_new : bytes -> res bytes) (m : maddr),
+  maurl_ToURL_path (fun b => to_go (path_unescape b)) (fun b => to_go (unesc_new b))
+     (match first_httppath m with Some b => httppath_bts b | None => [] end)
+     (match first_httpath m with Some b => b | None => [] end)
+     None                                       (* err is nil at this point of ToURL *)
+     (has (first_httppath m)) (has (first_httpath m))
+  = FFall (path_of_with unesc_new m).
+Proof. exact GenTie_C20.tie_ToURL_path. Qed.
+Print Assumptions gen_tie_ToURL_path.
+
+Theorem gen_ToURL_host_brackets_table :
+  forall (IP : Type) (parse : list N -> IP) (isnil : IP -> bool) (to4 : IP -> IP) (equal : IP -> IP -> bool)
+         (sprintf : list N -> list N -> list N) (host : list N),
+  maurl_ToURL_host_brackets IP sprintf parse isnil equal to4 host
+  = FFall (if negb (isnil (parse host)) && negb (equal (to4 (parse host)) (parse host))
+           then sprintf (bytes_of_string "[%s]") host else host).
+Proof. exact GenTie_C20.ToURL_host_brackets_table. Qed.
+Print Assumptions gen_ToURL_host_brackets_table.
+
+Theorem gen_pathVal_table : forall (index : list N -> Z -> Z) (b : list N),
+  maurl_pathVal index b = if 0 <=? index b 47 then Some "encoded path '%s' contains a slash"%string else None.
+Proof. exact GenTie_C20.pathVal_table. Qed.
+Print Assumptions gen_pathVal_table.
+
+Theorem gen_tie_FilterPublic_keep : forall a : addr,
+  mautil_FilterPublic_keep (option (N * bool)) addr N (fun a => (comp_of a, a)) Z.of_N
+     (fun c => match c with None => true | Some _ => false end) a_nil
+     comp_code comp_value a (a_unspec a) (a_public a)
+  = keep_public a.
+Proof. exact GenTie_C20.tie_FilterPublic_keep. Qed.
+Print Assumptions gen_tie_FilterPublic_keep.
+
+Theorem gen_tie_FindHTTPAddrs_keep : forall a : addr,
+  mautil_FindHTTPAddrs_keep addr N Z.of_N a_nil a_protos a = has_http a.
+Proof. exact GenTie_C20.tie_FindHTTPAddrs_keep. Qed.
+Print Assumptions gen_tie_FindHTTPAddrs_keep.
+
+Theorem gen_FilterPublic_nil_result_table : forall (T : Type) (l : list T),
+  mautil_FilterPublic_nil_result T l = if is_nil l then FReturn "return nil"%string [] else FFall [].
+Proof. exact GenTie_C20.FilterPublic_nil_result_table. Qed.
+Print Assumptions gen_FilterPublic_nil_result_table.
+
+Theorem gen_MultiaddrsEqual_head_table : forall (T : Type) (a b : list T),
+  mautil_MultiaddrsEqual_head T a b =
+  if negb (len a =? len b) then FReturn "return false"%string []
+  else if len a =? 0 then FReturn "return true"%string []
+  else if len a =? 1 then FReturn "return ma1[0].Equal(ma2[0])"%string []
+  else FFall [].
+Proof. exact GenTie_C20.MultiaddrsEqual_head_table. Qed.
+Print Assumptions gen_MultiaddrsEqual_head_table.
